@@ -200,6 +200,26 @@ def k_concrete(ctx, name, p, suffix=""):
         ctx.check("concrete.unpack", ok3 and e is True, "eq", f"{name}/{rname}", case, observed=repr(e))
         if rname != "holder_concrete":
             ISO.remember(u, want, f"{name}/{rname}", view=lambda u=u: read(name, u))
+    # "consumes exactly length+2 octets": the same TLV with a smaller length octet (stopping inside its own value), followed by the
+    # octets cut off - whatever the decoder makes of the shortened TLV alone (usually a refusal) it must make of it with those octets
+    # behind it; they are not part of the TLV any more
+    vlen = len(want) - 2
+    for cut in sorted({1, vlen // 2, vlen - 1, vlen} - {0}):
+        if not 1 <= cut <= vlen:
+            continue
+        short = bytes([want[0], vlen - cut]) + want[2:len(want) - cut]
+        rest = want[len(want) - cut:] + sfx
+        ok_a, a = attempt(cls.unpack, short)
+        ok_b, b = attempt(cls.unpack, short + rest)
+        ctx.ev("concrete.consumes_declared_length")
+        ctx.table("shortened_tlv_alone", f"{name}:{'decoded' if ok_a else type(a).__name__}")
+        if ok_a != ok_b:
+            ctx.fail("concrete.consumes_declared_length", "octets_behind_the_declared_length_change_the_outcome", f"{name}/{'accepted_with_them' if ok_b else 'refused_with_them'}", case,
+                     unit=short, behind=rest, alone=repr(a)[:160], with_octets_behind=repr(b)[:160])
+        elif ok_a:
+            ra, rb = attempt(read, name, a), attempt(read, name, b)
+            ctx.check("concrete.consumes_declared_length", ra == rb and a.packet_len == b.packet_len == len(short), "octets_behind_the_declared_length_change_the_result", name, case,
+                      unit=short, behind=rest, alone=repr(ra)[:160], with_octets_behind=repr(rb)[:160])
     # objects decoded earlier (from other octets) must still be what they were decoded from
     ISO.recheck(ctx, "concrete.decoded_objects_independent", case)
     k_defaults(ctx, name, p)
@@ -491,6 +511,6 @@ def conclude(ctx):
     ctx.require(len(ctx.tables.get("cond_x_handler", {})) == 13 * 4, "condition x handler table incomplete")
     for name in CONCRETE:
         ctx.require(ctx.classes.get(f"concrete/{name}", 0) > 0, f"class concrete/{name} empty")
-    for m in ("tlv.pack", "tlv.unpack", "tlv.len", "lv.pack", "lv.unpack", "concrete.pack", "concrete.unpack", "concrete.len", "concrete.decoded_objects_independent", "concrete.defaults", "type_safety",
+    for m in ("tlv.pack", "tlv.unpack", "tlv.len", "lv.pack", "lv.unpack", "concrete.pack", "concrete.unpack", "concrete.len", "concrete.decoded_objects_independent", "concrete.consumes_declared_length", "concrete.defaults", "type_safety",
               "long_value_refused", "status_maps"):
         ctx.require(ctx.monitors.get(m, {}).get("evaluations", 0) > 0, f"monitor {m} never evaluated")
